@@ -90,13 +90,21 @@ def run_property(prop_id, module, tier, explain=None):
         configs = list(ALL_CONFIGS) if tier == "thorough" else [DEFAULT_CONFIG]
         if getattr(module, "CONFIGS_QUICK", None) and tier == "quick":
             configs = list(module.CONFIGS_QUICK)
-        progs, stats = M.load(configs)
+        progs, stats = M.load(configs, latent_openmp=bool(getattr(module, "LATENT_OPENMP", False)))
         rep = Report(prop_id)
         fixtures = None
         if hasattr(module, "fixtures"):
             fixtures = module.fixtures(rep, tier)
         for cfg in configs:
-            module.run(rep, progs[cfg], tier)
+            try:
+                module.run(rep, progs[cfg], tier)
+            except AnalysisBroken as e:
+                # a violation already established stays a violation; the rules that could not be instantiated
+                # after it (often because of it) are recorded as not evaluated
+                if any(i["outcome"] == "violation" for i in rep.instances):
+                    rep.note("configuration %s: analysis stopped after the reported violation(s): %s" % (list(cfg), str(e)[:300]))
+                else:
+                    raise
         if hasattr(module, "cross_config") and len(configs) > 1:
             module.cross_config(rep, progs, tier)
         inst = _dedupe(rep.instances)
